@@ -436,8 +436,8 @@ func leaderKeyedByRequest(fn *ssa.Function, ko an.Origin) bool {
 	found := false
 	an.EachInstr(fn, func(ins ssa.Instruction) {
 		bo, ok := ins.(*ssa.BinOp)
-		if !ok || bo.Op != token.EQL {
-			return
+		if !ok || (bo.Op != token.EQL && bo.Op != token.NEQ) {
+			return // (`if p.ID != partition { continue }` is the same selection spelled the other way round)
 		}
 		for _, pair := range [][2]ssa.Value{{bo.X, bo.Y}, {bo.Y, bo.X}} {
 			eo := an.Origins(pair[0], an.FlowOpts{})
